@@ -17,6 +17,8 @@ TUPLES = [
     dict(x='9**n', y='27**n', z='3**n'), dict(x='2**n - 1', y='2**n + 1'), dict(x='(1/2)**n', y='(1/4)**n + 3'), dict(x='n**2 + 2**n', y='n', z='2**n'),
     dict(a='(-1)**n', b='2**n', c='(-2)**n'), dict(x='5', y='n'), dict(x='4**n', y='(1/2)**n'), dict(x='8**n + 4**n', y='2**n'),
     dict(x='12**n', y='18**n', z='(1/2)**n', w='(1/3)**n'),
+    # dependent bases met in non-ascending order (alignment of lattice columns with abstraction symbols), and multiplicities 2,3,5 (generation)
+    dict(x='4**n', y='2**n'), dict(x='8**n', y='2**n', z='4**n'), dict(x='4**n', y='8**n', z='32**n'), dict(x='32**n', y='4**n', z='8**n'),
 ]
 PROGRAMS = [
 ("fib", "a, b = 0, 1\nwhile true:\n    a, b = b, a + b\nend", []),
